@@ -11,7 +11,7 @@
    loadbuf <B> <file>                   -> LOAD with sizeof(buf_) = B (model only)
    append <file> <entries>              -> <file'> LOAD(file')    open for append (no Load) and record
    session <file> <dead-names> <entries>-> <file'> LOAD(file')    Load; Recompact if asked; record
-   recompact <file> <dead-names>        -> <file'> LOAD(file')    Load; Recompact unconditionally
+   recompact <file> <dead-names>        -> <file'> LOAD(file')    ninja -t recompact: Load; Recompact unless discarded
    restat <file> <name:mtime,..> <names>-> <file'> LOAD(file')    ninja -t restat [names]; a stat of -1 fails
    hash <cmd-hex>                       -> (C++ only)                                                   *)
 open Buildlogmodel
@@ -94,7 +94,7 @@ let case (l : string) : string =
     let file = bytes_of_hex f in
     (match load_log file with
      | LOk (ents, _) -> with_reload (recompact (live_of dead) ents)
-     | LDiscard (_, _) -> with_reload (recompact (live_of dead) [])   (* log unlinked, table empty *)
+     | LDiscard (_, _) -> with_reload []              (* LOAD_NOT_FOUND: log unlinked, -t recompact does nothing *)
      | LFuel -> "fuel")
   | ["restat"; f; stats; subset] ->
     let file = bytes_of_hex f in
